@@ -11,6 +11,10 @@ use crate::source::{hash_str, Source};
 use serde_json::json;
 
 pub fn eval_finite(p: &Program, ctx: &Ctx) -> CaseInfo {
+    eval_finite_with(p, ctx, 80)
+}
+
+pub fn eval_finite_with(p: &Program, ctx: &Ctx, max_ref: usize) -> CaseInfo {
     let mut info = CaseInfo::default();
     let desc = p.show();
     info.key = hash_str(&desc);
@@ -18,10 +22,10 @@ pub fn eval_finite(p: &Program, ctx: &Ctx) -> CaseInfo {
         RefResult::Answers(a) => a,
         RefResult::Skip(w) => return CaseInfo { skip: Some(w), ..info },
     };
-    if reference.len() > 80 {
+    if reference.len() > max_ref {
         return CaseInfo::skip("too-many-answers");
     }
-    let lim = Limits { max_answers: 1000, budget: 3_000_000 };
+    let lim = Limits { max_answers: 1000.max(2 * max_ref), budget: 3_000_000.max(20_000 * max_ref as u64) };
     let bfs = run::run(p, Mode::Bfs, lim);
     let dfs = run::run(p, Mode::Dfs, lim);
     if ctx.want_sample {
@@ -53,6 +57,20 @@ fn run_finite(bytes: &[u8], ctx: &Ctx) -> CaseInfo {
     let mut s = Source::new(bytes);
     let p = gen_program(&mut s, &SearchCfg::dfs());
     eval_finite(&p, ctx)
+}
+
+fn run_scale(bytes: &[u8], ctx: &Ctx) -> CaseInfo {
+    let mut s = Source::new(bytes);
+    let thorough = ctx.tier == Tier::Thorough;
+    let p = crate::gen::scale::search_program(&mut s, thorough, 0);
+    if std::env::var("PVH_SHOW").is_ok() {
+        eprintln!("SHOW {}", p.show());
+    }
+    let mut info = eval_finite_with(&p, ctx, 4 * crate::gen::scale::cap(thorough) + 16);
+    truncate_sample(&mut info, 600);
+    let g = p.goal_count();
+    info.class(if g >= 256 { "goals>=256" } else if g >= 64 { "goals>=64" } else { "goals<64" });
+    info
 }
 
 /// Infinite programs: a producer prefix / branch followed by family S goals.
@@ -162,11 +180,12 @@ pub fn run_infinite_pub(bytes: &[u8], ctx: &Ctx) -> CaseInfo {
 pub fn def() -> PropertyDef {
     PropertyDef {
         id: "C06",
-        rule: "finite family: family S programs (finite search tree by construction) run under the default interleaving search and wrapped in dfs{}: both answer multisets must equal the reference interpreter's (nothing lost, nothing invented, multiplicities kept). Infinite family: a producer (always, loop{..}, nat, a conde with never()) as prefix or branch of family S goals: up to 4 ground instances of each of the first 25 answers must be solutions according to the reference set semantics. Non-trivial = finite: >=2 answers and a disjunction or relation call; infinite: >=5 answers obtained; distinct = hash of the printed program",
+        rule: "finite family: family S programs (finite search tree by construction) run under the default interleaving search and wrapped in dfs{}: both answer multisets must equal the reference interpreter's (nothing lost, nothing invented, multiplicities kept). Infinite family: a producer (always, loop{..}, nat, a conde with never()) as prefix or branch of family S goals: up to 4 ground instances of each of the first 25 answers must be solutions according to the reference set semantics. Non-trivial = finite: >=2 answers and a disjunction or relation call; infinite: >=5 answers obtained; distinct = hash of the printed program. Family `scale`: the scaled search programs of C05 (wide disjunctions, long chains of choice points, deep recursion) under both searches against the reference",
         assumptions: vec!["reference interpreter and its mirrored relation definitions are correct", "for infinite streams only soundness of a bounded prefix is decided (completeness of an infinite stream is C07's bounded liveness)"],
         families: vec![
             Family { name: "finite", max_len: 200, quick: 200_000, thorough: 5_000_000, run: run_finite },
             Family { name: "infinite", max_len: 160, quick: 20_000, thorough: 400_000, run: run_infinite },
+            Family { name: "scale", max_len: 48, quick: 6_000, thorough: 100_000, run: run_scale },
         ],
         fixed: vec![],
         witnesses: vec![],
